@@ -233,6 +233,16 @@ func TestC05(t *testing.T) {
 		return checkIntercept(c) != ""
 	})
 
+	// the open context-stack finding of C07, as this property meets it: the
+	// pcall's context (which inherited what was left of the limit) stays pushed
+	// when the coroutine yields, the resumer then runs under it, and when it is
+	// exhausted the termination belongs to a context no CallContext on the
+	// stack owns
+	kfYield := CheckKnown(rec, "C05-yield-inside-protected-call-under-limit", func() bool {
+		c := limCase{Source: `local co = coroutine.create(function() pcall(coroutine.yield, 1) end) coroutine.resume(co) local i = 0 while true do i = i + 1 end`, Limit: 10000, Kind: "intercept", Name: "yield-inside-pcall-then-loop"}
+		return checkIntercept(c) != ""
+	})
+
 	// (2) interception templates
 	idx := 0
 	for _, tpl := range intercept {
@@ -299,11 +309,20 @@ func TestC05(t *testing.T) {
 	RunRapid(rec, "C05/programs", rec.Pick(150, 4000), 0, func(t *rapid.T) {
 		prog := luagen.Generate(t, prof)
 		specs := progcheck.ArgSpecs(prog.Args)
-		src, _ := mlua.Render(prog.Block, nil)
+		src, lines := mlua.Render(prog.Block, nil)
+		if kfYield && progcheck.YieldsInsideProtectedCall(prog.Block, lines, specs, src) {
+			rec.Discard("excluded-by-finding:C05-yield-inside-protected-call-under-limit")
+			return
+		}
 		base := limCase{Source: src, Args: specs, Kind: "program"}
 		ref := run(base, hugeCPU)
 		if ref.Panic != "" || ref.Killed || ref.CompileErr != "" {
 			rec.Discard("reference run unusable")
+			return
+		}
+		if again := run(base, hugeCPU); again.Rets != ref.Rets || again.ErrTok != ref.ErrTok || strings.Join(again.Events, "\n") != strings.Join(ref.Events, "\n") {
+			// e.g. tostring of a table: the program's own output carries an address
+			rec.Discard("the program's output differs between two unlimited runs (addresses): relations not applicable")
 			return
 		}
 		u := ref.UsedCPU
